@@ -398,6 +398,10 @@ class BaseWindowSplitter(BaseSplitter):
         y = _check_y(y)
         fh = _check_fh(self.fh)
         step_length = check_step_length(self.step_length)
+        # the same settings as in `split` are validated in the same way
+        window_length = check_window_length(self.window_length, "window_length")
+        initial_window = check_window_length(self.initial_window, "initial_window")
+        _check_window_lengths(y, fh, window_length, initial_window)
 
         if hasattr(self, "initial_window") and self.initial_window is not None:
             start = self.initial_window
